@@ -409,11 +409,17 @@ func runCapabilities(c *mc.Ctx, r *mc.Result) {
 	// helpers
 	for code := 100; code <= 599; code += 37 {
 		for _, body := range []string{"", "hello", strings.Repeat("z", 70000)} {
-			for _, helper := range []string{"String", "Blob", "Stream"} {
+			for _, helper := range []string{"String", "Blob", "Stream", "Blob+preset", "Stream+preset"} {
 				rw := fx.NewRW()
 				ctx := fox.NewTestContextOnly(rw, fx.Req("GET", "", "/"))
 				var err error
 				wantCT := "application/x-test"
+				if strings.HasSuffix(helper, "+preset") {
+					// a Content-Type already on the response (a default set by a middleware): the helper is
+					// given its own and must send that one
+					ctx.SetHeader("Content-Type", "application/json")
+					helper = strings.TrimSuffix(helper, "+preset")
+				}
 				switch helper {
 				case "String":
 					err = ctx.String(code, "%s", body)
